@@ -138,6 +138,20 @@ Fixpoint unpack (ec : bool) (k : N) (need : nat) (acc : N) (bits : list bool) : 
     end
   end.
 
+(* every code fits the width of its position *)
+Fixpoint fits (ec : bool) (k : N) (cs : list N) : Prop :=
+  match cs with
+  | [] => True
+  | c :: cs' => c < 2 ^ N.of_nat (width ec k) /\ fits ec (if c =? CLEAR then 0 else k + 1) cs'
+  end.
+
+(* a code sequence up to and including its first EOD marker *)
+Fixpoint cut (cs : list N) : list N :=
+  match cs with
+  | [] => []
+  | c :: cs' => if c =? EOD then [EOD] else c :: cut cs'
+  end.
+
 Definition byte_bits (b : byte) : list bool :=
   let '(b0, (b1, (b2, (b3, (b4, (b5, (b6, b7))))))) := Byte.to_bits b in [b7; b6; b5; b4; b3; b2; b1; b0].
 
